@@ -270,7 +270,7 @@ pub fn run(ctx: &Ctx) -> i32 {
         property: "C12",
         tier,
         seed: ctx.seed,
-        scenarios: tier.pick(600, 20_000),
+        scenarios: tier.pick(1_800, 40_000),
         threads: super::threads(),
         watchdog: Duration::from_secs(300),
         budget: Duration::from_secs(tier.pick(100, 1000)),
